@@ -746,6 +746,9 @@ func (pe *PolicyEngine) AddPodByNameAndNamespace(name, ns string) (Peer, error) 
 		Name:      name,
 		Namespace: ns,
 		FakePod:   true,
+		// a policy of namespace ns may select this pod too: with exposure analysis its cluster-wide connections are updated
+		IngressExposureData: k8s.PodExposureInfo{ClusterWideConnection: common.MakeConnectionSet(false)},
+		EgressExposureData:  k8s.PodExposureInfo{ClusterWideConnection: common.MakeConnectionSet(false)},
 	}
 	if err := pe.resolveSingleMissingNamespace(ns); err != nil {
 		return nil, err
